@@ -92,6 +92,11 @@ def attempt(prop, comp, group, ob, rep):
             if prop == 'C08' or 'C08' in tags and prop == 'C08':
                 import replay_tsan
                 return replay_tsan.attempt(comp.name, group.name, ob)
+            if comp.name == 'mcs':
+                import replay_sched
+                r = replay_sched.attempt(prop, comp.name, group.name, ob, rep)
+                if r.get('reproduced'):
+                    return r
             return replay_lock_state(comp.name, group.name, tags)
         mod = {'zipf': 'replay_zipf', 'idm': 'replay_sched', 'epoch': 'replay_sched'}.get(comp.name)
         if mod:
